@@ -1,6 +1,7 @@
 //! C04: on the syntax shared with the regex crate the whole API agrees with it.
 
 use crate::common::*;
+use crate::casefold;
 use crate::counts;
 use crate::engine::{self, CompileFail, Out};
 use crate::kf;
@@ -255,13 +256,17 @@ pub fn run_c04(cx: &Ctx) -> i32 {
     t.count("large_count_sweep_programs", t4.programs);
     t.count("large_count_sweep_evaluations", t4.evaluations);
     t.merge(t4);
+    let tc = casefold::sweep(casefold::Which::C04);
+    t.count("casefold_sweep_programs", tc.programs);
+    t.count("casefold_sweep_evaluations", tc.evaluations);
+    t.merge(tc);
     finish(
         cx,
         t,
         Finish {
             rule: format!(
-                "every common-syntax pattern of {} (classes, anchors, \\b \\B, groups numbered and named, greedy/lazy quantifiers, inline flag directives as atoms at any position) x flag prefixes {:?} x every text over {:?} up to length {}; oracle: regex::Regex built from the identical string; compared value by value: captures_len, capture_names, is_match, find_from_pos and captures_from_pos at every offset, find_iter, captures_iter, split, splitn(0..3), replacen(0..3; quick tier 0..2 and the first four templates) with templates {:?}, a closure and NoExpand (including Cow borrowed-ness); patterns the regex crate rejects are skipped; non-trivial = (pattern,text) with at least one match; plus a {}",
-                space.describe(), prefixes, alphabet, max_len, TEMPLATES, counts::describe(counts::Which::C04, dense, top)
+                "every common-syntax pattern of {} (classes, anchors, \\b \\B, groups numbered and named, greedy/lazy quantifiers, inline flag directives as atoms at any position) x flag prefixes {:?} x every text over {:?} up to length {}; oracle: regex::Regex built from the identical string; compared value by value: captures_len, capture_names, is_match, find_from_pos and captures_from_pos at every offset, find_iter, captures_iter, split, splitn(0..3), replacen(0..3; quick tier 0..2 and the first four templates) with templates {:?}, a closure and NoExpand (including Cow borrowed-ness); patterns the regex crate rejects are skipped; non-trivial = (pattern,text) with at least one match; plus a {}; plus a {}",
+                space.describe(), prefixes, alphabet, max_len, TEMPLATES, counts::describe(counts::Which::C04, dense, top), casefold::describe(casefold::Which::C04)
             ),
             exhaustive: true,
             bounds: jobj! {"space" => space.describe(), "max_text_len" => max_len, "node_bound" => k},
